@@ -187,6 +187,50 @@ def Items.depth : Items → Nat
   | .child _ _ n r => max n.depth r.depth
 end
 
+/-! ### the same recursion when elements below the root carry namespace declarations
+
+  With `xmlns_processing='stacked'` (the default for an XML source and for decoded data that reports its
+  declarations) the converter's `map_qname`/`unmap_qname` answer in the namespace context of the element being
+  converted: `set_xmlns_context` (namespaces.py:192-251) pushes the element's declarations when the element is
+  entered and restores the saved map when it is left — on decode one context at a time (elements.py:837,
+  groups.py:1008), on encode possibly several at once (the first call for a later sibling pops every context of
+  the subtree that was left).  What this is meant to implement is lexical scoping: the mapping seen by an
+  element is a function of the declarations written on the path from the root to it, and of nothing else
+  (earlier siblings and their descendants leave no trace).  `decTreeS`/`encTreeS` are the recursion of
+  `decTree`/`encTree` with that discipline: the converter is a family indexed by the declarations in scope. -/
+
+/-- the namespace declarations in scope: the lists written on the ancestors-or-self, innermost first -/
+abbrev NsScope := List (String × String)
+
+/-- entering an element that carries the declarations `x` (`[]`: none — the scope is the parent's) -/
+def NsScope.push (sc : NsScope) (x : List (String × String)) : NsScope := x ++ sc
+
+/-- a converter whose name mapping is a function of the declarations in scope, with the declarations that
+    `get_xmlns_from_data` reads from a data object (what `set_xmlns_context` pushes on the encode side) -/
+structure SConv where
+  cv : NsScope → Conv
+  xmlnsOf : J → List (String × String)
+
+mutual
+/-- bottom-up decode; the element and its descendants see the scope extended with `hd.xmlns` -/
+def decTreeS (c : SConv) (sc : NsScope) : Node → J
+  | .mk f hd items => (c.cv (sc.push hd.xmlns)).dec f hd (decItemsS c (sc.push hd.xmlns) items)
+def decItemsS (c : SConv) (sc : NsScope) : Items → List (Item J)
+  | .nil => []
+  | .cdata i v r => .cdata i v :: decItemsS c sc r
+  | .child nm s n r => .child nm s (decTreeS c sc n) :: decItemsS c sc r
+end
+
+/-- top-down encode: `element_encode` first reads the declarations of the data object and enters their scope
+    (jsonml.py:100, dataobjects.py:561, base.py:452), every child is encoded in that scope — whatever its
+    earlier siblings declared -/
+def encTreeS (c : SConv) (sch : Nat → Option Facts) : Nat → NsScope → Facts → String → J → Except Err Node
+  | 0, _, _, _, _ => .error .fuel
+  | fuel + 1, sc, f, name, obj => do
+      let (hd, its) ← (c.cv (sc.push (c.xmlnsOf obj))).enc f name obj
+      let items ← encItems sch (encTreeS c sch fuel (sc.push (c.xmlnsOf obj))) f its
+      pure (.mk f hd items)
+
 /-! ### shared pieces -/
 
 /-- `s.startswith(p)` / `s[n:]`, on the character lists (so that the string facts needed are list facts) -/
@@ -306,6 +350,77 @@ def enc (m : Mapper) (useNs : Bool) (f : Facts) (name : String) (obj : J) : Exce
   | _ => .error .typeErr
 
 def conv (m : Mapper) (useNs : Bool) : Conv := ⟨dec m useNs, enc m useNs⟩
+
+/-- get_xmlns_from_data of a whole JsonML object (jsonml.py:50-62): the declarations among the keys of `obj[1]` -/
+def xmlnsOfObj (useNs : Bool) : J → List (String × String)
+  | .list (_ :: rest) => xmlnsOf useNs rest
+  | _ => []
+
+/-! `element_encode` un-maps the name of a child *with the declarations that the child carries*
+    (`self.unmap_qname(e[0], xmlns=self.get_xmlns_from_data(e))`, jsonml.py:126-131), i.e. in the child's own
+    namespace context.  `number`/`encBody`/`enc` above un-map it with the element's mapper, which is the same
+    thing as long as no element below the root re-declares a prefix that its own name uses; `numberK`/`encBodyK`/
+    `encK` take the un-mapping of a child's name as a function `umK child name` (`numberK_eq`: they coincide
+    with the former for `umK := fun _ => m.um`). -/
+
+def numberK (umK : J → String → String) (useNs : Bool) : Nat → List J → Except Err (List (Item J))
+  | _, [] => .ok []
+  | k, e :: r =>
+    match e with
+    | .list [] => .error .leak
+    | .list (.atom kd s :: _) =>
+        if kd == "s" then do
+          let r' ← numberK umK useNs k r
+          pure (.child (umK e s) false e :: r')
+        else .error .typeErr
+    | .list (.dict _ :: _) =>
+        if useNs then .error .leak else .error .typeErr
+    | .list (_ :: _) => .error .typeErr
+    | .elem .. => .error .leak
+    | e => do
+        let r' ← numberK umK useNs (k + 1) r
+        pure (.cdata k e :: r')
+
+def encBodyK (umK : J → String → String) (useNs : Bool) (f : Facts) (tag : String) (attributes : List (String × J))
+    (xmlns : List (String × String)) (body : List J) : Except Err (Hd × List (Item J)) :=
+  match body with
+  | [] => .ok ({ tag, text := none, attrs := attributes, xmlns }, [])
+  | [t] =>
+    if f.simple || (f.emptyContent && f.mixed) then
+      .ok ({ tag, text := if t.isNull then none else some t, attrs := attributes, xmlns }, [])
+    else do
+      let c ← numberK umK useNs 1 body
+      pure ({ tag, text := none, attrs := attributes, xmlns }, c)
+  | _ => do
+      let c ← numberK umK useNs 1 body
+      pure ({ tag, text := none, attrs := attributes, xmlns }, c)
+
+/-- element_encode, jsonml.py:92-132, children's names un-mapped by `umK` -/
+def encK (m : Mapper) (umK : J → String → String) (useNs : Bool) (f : Facts) (name : String) (obj : J) :
+    Except Err (Hd × List (Item J)) :=
+  match obj with
+  | .list [] => .error .valueErr
+  | .list (h :: rest) =>
+    match h with
+    | .atom kd s =>
+      if kd == "s" then
+        let tag := m.um s
+        if tag != name then .error .unmatchedTag else
+        match rest with
+        | [] => .ok ({ tag, text := none, attrs := [], xmlns := [] }, [])
+        | _ => encBodyK umK useNs f tag (splitAttrs m rest).1 (xmlnsOf useNs rest) (splitAttrs m rest).2
+      else .error .typeErr
+    | .dict _ => if useNs then .error .leak else .error .valueErr
+    | _ => .error .typeErr
+  | .elem .. => .error .leak
+  | _ => .error .typeErr
+
+/-- JsonML (namespaces processed) with the name mapping `m sc` of the declarations in scope: an element's own
+    name and its attribute names are un-mapped in the element's scope, the name of a child in the scope
+    extended with the child's declarations -/
+def sconv (m : NsScope → Mapper) : SConv :=
+  ⟨fun sc => ⟨dec (m sc) true, encK (m sc) (fun e s => (m (sc.push (xmlnsOfObj true e))).um s) true⟩,
+   xmlnsOfObj true⟩
 
 end JsonML
 
